@@ -206,6 +206,7 @@ def cmake_variant(variant, cmake_flags, cxx_flags, timeout=7200):
 def write_replay(pid, name, obj):
     d = os.path.join(OUT, "replay", pid)
     os.makedirs(d, exist_ok=True)
+    name = re.sub(r"[^A-Za-z0-9_.()#+=,-]", "_", name)[:150]      # keys are built from oracle messages: keep them file-name safe
     path = os.path.join(d, "%s.json" % name)
     with open(path, "w") as f:
         json.dump(obj, f, indent=1)
